@@ -540,6 +540,17 @@ class Gen:
 
     def g_concat(self):
         v = self.pick_val(lambda v: v.rank >= 1)
+        if self.cfg.get("zero_dims") and self.chance(2):
+            # operands of size zero whose zero dimension is not necessarily the concat axis
+            rank = self.pick([2, 2, 3])
+            shp = [self.pick([1, 2, 3]) for _ in range(rank)]
+            shp[self.draw(st.integers(0, rank - 1))] = 0
+            dt = self.pick([F32, I64])
+            if self.depth == 0 and self.chance(5):
+                v = self.add_input(dt, tuple(shp))
+            else:
+                v = self.const_array(np.zeros(shp, dtype=dt))
+            self.features.add("concat:zero_size_operand")
         if v is None:
             return
         axis = self.draw(st.integers(-v.rank, v.rank - 1))
@@ -836,16 +847,16 @@ class Gen:
         return self.emit("ConcatFromSequence", [seq], axis=ax, new_axis=self.pick([0, 1]))
 
     # ------------------------------------------------------------------ control flow
-    def _branch(self, targets, parent_vis):
+    def _branch(self, targets, parent_vis, force=None):
         """Build a branch graph producing one value per target (same dtype and shape)."""
         sub = Gen(self.draw, dict(self.cfg, outer=parent_vis, counter=self.counter, used_names=self.used_names,
                                   depth=self.depth + 1, opset=self.opset, overridable=False))
         sub.functions = self.functions
         outs = []
         for t in targets:
-            how = self.pick(["unary", "const", "outer", "binary", "chain"])
+            how = force or self.pick(["unary", "const", "outer", "binary", "chain"])
             if how == "const":
-                v = sub.const_array(make_array(self.seed(), t.dtype, t.shape, "smallint"), how=self.pick(["node", "init"]))
+                v = sub.const_array(make_array(self.seed(), t.dtype, t.shape, "smallint"), how="init" if force else self.pick(["node", "init"]))
             elif how == "outer":
                 # onnx.checker requires subgraph outputs to be node outputs -> always via Identity
                 r = sub.emit("Identity", [t])
@@ -855,7 +866,7 @@ class Gen:
                 r = sub.emit(self.pick(["Neg", "Abs", "Identity"]), [t])
                 v = r[0] if r else None
             elif how == "binary" and t.dtype in NUMERIC:
-                c = sub.const_array(make_array(self.seed(), t.dtype, (), "smallint"), how=self.pick(["node", "init"]))
+                c = sub.const_array(make_array(self.seed(), t.dtype, (), "smallint"), how="init" if force else self.pick(["node", "init"]))
                 r = sub.emit(self.pick(["Add", "Mul", "Sub"]), [t, c])
                 v = r[0] if r else None
             else:
@@ -882,11 +893,11 @@ class Gen:
         self.features |= {f for f in sub.features if f.startswith(("op:", "const:"))}
         return g
 
-    def g_if(self):
+    def g_if(self, how=None, branch=None, reuse=False):
         vis = self.visible(lambda v: v.dtype in NUMERIC or v.dtype == BOOL)
         if not vis:
             return
-        how = self.pick(["const", "const", "dynamic", "dynamic", "folded"])
+        how = how or self.pick(["const", "const", "dynamic", "dynamic", "folded"])
         if how == "const":
             cond = self.const_array(np.asarray(self.pick([True, False])), how=self.pick(["node", "init"]))
         else:
@@ -905,12 +916,22 @@ class Gen:
         k = self.pick([1, 1, 2])
         targets = [self.pick(vis) for _ in range(k)]
         parent_vis = self.outer + [v for v in self.env if isinstance(v.arr, np.ndarray)]
-        tb = self._branch(targets, parent_vis)
-        eb = self._branch(targets, parent_vis)
+        tb = self._branch(targets, parent_vis, branch and self.pick(branch))
+        eb = self._branch(targets, parent_vis, branch and self.pick(branch))
         if tb is None or eb is None:
             return
         self.features.add("If")
         self.features.add("If:" + how)
+        if self.cfg.get("sibling_names", True):
+            # disjoint scopes are independent in ONNX: let branches reuse the local names of an earlier If's branch at this level,
+            # and the else-branch those of the then-branch
+            prev = self.__dict__.get("_prev_branch")
+            cousin = prev is not None and (reuse or self.chance(4)) and _reuse_sibling_names(prev, tb)
+            if cousin:
+                self.features.add("If:cousin_names_reused")
+            if (cousin or reuse or self.chance(4)) and _reuse_sibling_names(tb, eb):
+                self.features.add("If:sibling_names_reused")
+            self._prev_branch = tb
         return self.emit("If", [cond], n_out=k, subgraph_free=parent_vis, then_branch=tb, else_branch=eb)
 
     def g_loop(self):
@@ -1080,6 +1101,43 @@ class Gen:
                     forced.extend(v for v in r if isinstance(getattr(v, "arr", None), np.ndarray) and v not in forced and v.kind == "node")
                 continue
             getattr(self, self.pick(names))()
+
+
+def _local_names(g):
+    inits = [i.name for i in g.initializer]
+    outs = [o for n in g.node for o in n.output if o]
+    return inits, outs
+
+
+def _rename_graph(g, mp):
+    for i in g.initializer:
+        i.name = mp.get(i.name, i.name)
+    for vi in list(g.value_info) + list(g.output) + list(g.input):
+        vi.name = mp.get(vi.name, vi.name)
+    for n in g.node:
+        for k, x in enumerate(n.input):
+            n.input[k] = mp.get(x, x)
+        for k, x in enumerate(n.output):
+            n.output[k] = mp.get(x, x)
+        for a in n.attribute:
+            if a.type == onnx.AttributeProto.GRAPH:
+                _rename_graph(a.g, mp)
+            elif a.type == onnx.AttributeProto.GRAPHS:
+                for sg in a.graphs:
+                    _rename_graph(sg, mp)
+
+
+def _reuse_sibling_names(tb, eb):
+    """Rename the top-level local names of graph eb (initializers, node outputs) to those of its sibling tb, kind by kind.
+    All generated names are globally unique beforehand, so the renaming cannot capture anything; nested subgraphs of eb follow."""
+    ti, to = _local_names(tb)
+    ei, eo = _local_names(eb)
+    mp = dict(zip(ei, ti))
+    mp.update(zip(eo, to))
+    if not mp:
+        return False
+    _rename_graph(eb, mp)
+    return True
 
 
 def _value_info(name, arr, unknown=False, dims=None):
